@@ -42,6 +42,9 @@ var c16Corpus = []c16Prog{
 	{name: "multi-part text", text: `script S5 { ¶ ⟦c30 cmd30 ( ⟦x1 MPT1 ⟧ , 7 ) ⟧ ¶ ⟦c31 cmd31 ⟧ ¶ } ¶ ⟦t3 text Tx3 { ¶ ⟦x2 MPT2 ⟧ ¶ } ⟧`,
 		lines: [][2]string{{"\tcmd30 ", "c30"}, {"\t.string \"pa1", "c30"}, {"\tcmd31", "c31"}, {"\t.string \"pb1", "t3"}},
 		upper: [][2]string{{"\t.string \"pa1", "x1"}, {"\t.string \"pb1", "x2"}}},
+	// a raw block whose lines contain a lone carriage return, a multi-byte character and a CRLF line end, followed by more source
+	{name: "raw content", text: `raw ⟦raw RAW2 ⟧ ¶ script S6 { ¶ ⟦c40 cmd40 ⟧ ¶ } ¶ raw ⟦raw RAW ⟧ ¶ script S7 { ¶ ⟦c41 cmd41 ⟧ ¶ }`,
+		lines: [][2]string{{"\tcmd40", "c40"}, {"\tcmd41", "c41"}}},
 }
 
 // multi-part string literals written over several lines (single tokens with a fixed inner layout)
@@ -49,6 +52,7 @@ const c16Multi1 = "\"pa1\\n\"\n\t\t\"pa2\\n\"\n\n\t\t\"pa3\""
 const c16Multi2 = "\"pb1\\p\"\n\t\"pb2\""
 
 const c16Raw = "`rawl0\nrawl1\n\nrawl3\n`"
+const c16Raw2 = "`rawm0\nrawm1\rrawm1b\nrawm2 é\r\nrawm3\n`"
 
 type c16Tok struct {
 	text string
@@ -71,6 +75,8 @@ func c16Parse(text string) []c16Tok {
 			switch w {
 			case "RAW":
 				w = c16Raw
+			case "RAW2":
+				w = c16Raw2
 			case "MPT1":
 				w = c16Multi1
 			case "MPT2":
@@ -98,6 +104,14 @@ func c16Render(toks []c16Tok, base int, extra map[int]string) (string, map[strin
 		line += strings.Count(t.text, "\n")
 		if t.text == c16Raw {
 			rawLine = start
+		}
+		if t.text == c16Raw2 {
+			// only '\n' ends a source line
+			for k, rl := range strings.Split(strings.Trim(t.text, "`"), "\n") {
+				if rl != "" {
+					ext["rawm:"+rl] = [2]int{start + k, start + k}
+				}
+			}
 		}
 		for _, tag := range t.tags {
 			e, ok := ext[tag]
@@ -267,6 +281,15 @@ func runC16(tier string) int {
 					}
 					continue
 				}
+				if strings.HasPrefix(next, "rawm") {
+					e, ok := ext["rawm:"+next]
+					if !ok {
+						fail("C16:raw-line-content", fmt.Sprintf("raw output line %q is not a line of the raw block", next))
+					} else if ln != e[0] {
+						fail("C16:raw-line", fmt.Sprintf("marker %q before raw line %q, which is on source line %d", l, next, e[0]))
+					}
+					continue
+				}
 				tag := ""
 				for _, lp := range prog.lines {
 					if strings.HasPrefix(next, lp[0]) {
@@ -307,7 +330,7 @@ func runC16(tier string) int {
 	r.Assume("'the line on which the construct was written' is read as any line of the construct's source extent: the command, the label, the operand test incl. its comparison, the switch header, the case, the map-script entry head, the step / item, the whole text/movement/mart statement for the marker at its label, the enclosing command for hoisted text and moves() data; a raw line's own source line; in addition the marker in front of the first line of a multi-line text must not name a line after the one its first part is written on (the following lines of the text are counted from it)",
 		"string literals and raw blocks are single tokens (their inner layout is fixed)")
 	return r.Finish(r.Get("evaluations"), r.Get("nontrivial"),
-		"7 corpus programs covering every marker-emitting construct with unique names x {default, one token per line, all on one line} + every layout obtained from the default by inserting <= k extras (line break, blank line, '#' comment, '//' comment line) at any token gaps; each layout compiled with lm on / off / on without a path; non-trivial = the source has >= 2 lines")
+		"8 corpus programs covering every marker-emitting construct with unique names (incl. raw blocks whose lines hold a lone carriage return, a CRLF line end and a multi-byte character) x {default, one token per line, all on one line} + every layout obtained from the default by inserting <= k extras (line break, blank line, '#' comment, '//' comment line) at any token gaps; each layout compiled with lm on / off / on without a path; non-trivial = the source has >= 2 lines")
 }
 
 func tagKind(tag string) string { return strings.TrimRight(tag, "0123456789") }
